@@ -161,7 +161,7 @@ def calculate_rule(rep, prog, vp):
             adsb = p.df.fields[0]
             me = adsb.fields[2]
             av = me.fields[0]
-            ip = entry.new_interp(prog, max_seconds=120)
+            ip = entry.new_interp(prog, max_seconds=120, merge_returns=False)
             st = State()
             for f in p.facts:
                 st.pc.apply_fact(f)
